@@ -169,6 +169,34 @@ impl CanonicalAssets {
         Some(Self(negated))
     }
 
+    /// Class-wise sum with every amount clamped to the range of an i128.
+    pub fn saturating_add(self, other: Self) -> Self {
+        let mut aggregated = self.0;
+
+        for (key, value) in other.0 {
+            let entry = aggregated.entry(key).or_default();
+            *entry = entry.saturating_add(value);
+        }
+
+        aggregated.retain(|_, &mut value| value != 0);
+
+        Self(aggregated)
+    }
+
+    /// Class-wise difference with every amount clamped to the range of an i128.
+    pub fn saturating_sub(self, other: Self) -> Self {
+        let mut aggregated = self.0;
+
+        for (key, value) in other.0 {
+            let entry = aggregated.entry(key).or_default();
+            *entry = entry.saturating_sub(value);
+        }
+
+        aggregated.retain(|_, &mut value| value != 0);
+
+        Self(aggregated)
+    }
+
     pub fn classes(&self) -> HashSet<AssetClass> {
         self.iter().map(|(class, _)| class.clone()).collect()
     }
